@@ -1,7 +1,11 @@
 """C07 - close() then join() drains all work and leaves no processes behind.
 Lane REAL: a real pool in a host process of its own; seeded mixes of pending
 apply / map / imap / imap_unordered jobs, close() at a seeded instant, every
-pool size and recycling setting, with and without helper threads.  Oracles:
+pool size and recycling setting, with and without helper threads; failing
+items (a map resolved early by a failing chunk); directed scenarios: a worker
+leaving while a chunked map runs on, slow callbacks, a replacement worker that
+has worked, close() landing inside the supervisor's pass that starts several
+workers, producers blocked on the put-lock at close().  Oracles:
 results vs the sequential reference, wall time of join() against the work
 left (never the workers' 30 s consumption guard), /proc for worker processes
 and zombies, thread-set diff, post-close offers refused and never executed."""
@@ -88,10 +92,10 @@ def directed(tier):
     # a replacement worker (started after the pool was built) has done work
     # and everything is finished when close() comes: it must leave at once
     out.append({'nproc': 1, 'maxtasks': 2, 'threads': True, 'T': 2.0, 'pool_hard': None,
-                'close_delay': 3.0, 'jobs': [{'kind': 'apply', 'tag': 'r%d' % i, 'dur': 0.05}
+                'close_delay': 6.0, 'jobs': [{'kind': 'apply', 'tag': 'r%d' % i, 'dur': 0.05}
                                              for i in range(3)]})
     out.append({'nproc': 2, 'maxtasks': 3, 'threads': True, 'T': 2.0, 'pool_hard': None,
-                'close_delay': 3.0, 'jobs': [{'kind': 'apply', 'tag': 'r%d' % i, 'dur': 0.05}
+                'close_delay': 6.0, 'jobs': [{'kind': 'apply', 'tag': 'r%d' % i, 'dur': 0.05}
                                              for i in range(8)]})
     # close() lands while the supervisor is starting several workers
     for nproc, grow in ((1, 2), (2, 3)):
